@@ -4,6 +4,7 @@
   struct loop may set from `jsonschema` tags) — and the proof that `forType` produces it.
 -/
 import JSV.Proofs.InfEqns
+import JSV.Proofs.InfValid
 namespace JSV
 namespace Go
 open EncJson
@@ -49,6 +50,15 @@ theorem HasNode.mono {st st' : Store} (h : DExt st st') {id : NodeId} {m : Node}
 theorem HasNode.of_get {st : Store} {id : NodeId} {m : Node} (h : st.get? id = some m) : HasNode st id m :=
   ⟨m.description, h⟩
 
+/-- a declared type `.named n u` at a position of the type (JSV/Proofs/InfTable.lean: a declared type that `forType`
+    expands, or one with an entry in the type table, whose clone is the schema): what is recorded is the meaning of its
+    schema, not the shape — in the store and in every later one (`DExt`) the node accepts the encoding of every value of
+    the underlying type, and `null` where a pointer was stripped -/
+def NamedLeaf (st : Store) (u : GoType) (an : Bool) (id : NodeId) : Prop :=
+  ∀ st', DExt st st' → ∀ (re : String → String → Bool) (f : Nat) (scope : List NodeId), depth u + 1 ≤ f →
+    (an = true → Spec.Valid (Spec.evalFuel (Spec.specEnvNoRefs st' re) f scope id .null)) ∧
+    ∀ v, HasType u v → Spec.Valid (Spec.evalFuel (Spec.specEnvNoRefs st' re) f scope id (encode u v))
+
 /-- the schema of a struct type -/
 def structNode (falseId : NodeId) (props : Option (List (String × NodeId))) (po rq : Option (List String)) : Node :=
   { type := "object", additionalProperties := some falseId, properties := props, propertyOrder := po, required := rq }
@@ -66,7 +76,7 @@ mutual
         rq.getD [] = alwaysNames fields ∧
         (∀ k, k ∈ (props.getD []).map (·.1) → k ∈ jsonNames fields) ∧
         ModelsFields nfs st fields (props.getD [])
-    | .named _ _, _, _ => False
+    | .named _ u, an, id => NamedLeaf st u an id
     | .ref _, _, _ => False
   def ModelsFields (nfs : Bool) (st : Store) : List (String × String × GoType) → List (String × NodeId) → Prop
     | [], _ => True
@@ -103,7 +113,9 @@ mutual
       obtain ⟨notId, falseId, props, po, rq, h1, h2, h3, h4, h5, h6⟩ := hm
       exact ⟨notId, falseId, props, po, rq, h1.mono h, h2.mono h, h3.mono h, h4, h5,
         ModelsFields.mono h fields _ h6⟩
-    | .named _ _, _, _, hm => by simp only [Models] at hm
+    | .named _ u, an, id, hm => by
+      simp only [Models] at hm ⊢
+      exact fun st'' h' => hm st'' (h.trans h')
     | .ref _, _, _, hm => by simp only [Models] at hm
   theorem ModelsFields.mono {nfs : Bool} {st st' : Store} (h : DExt st st') : ∀ (fields : List (String × String × GoType))
       (props : List (String × NodeId)), ModelsFields nfs st fields props → ModelsFields nfs st' fields props
@@ -168,35 +180,38 @@ theorem mem_keys_of_lookup {α} {k : String} {v : α} : ∀ {l : List (String ×
     · rename_i hk; simp [hk]
     · exact List.mem_cons_of_mem _ (mem_keys_of_lookup h)
 
-/-- what the loop needs of the recursive call -/
-def RecModels (nfs : Bool) (rec : IRec) (seen : List String) (fields : List (String × String × GoType)) : Prop :=
-  ∀ f, f ∈ fields → (fieldJSONInfo f.1 f.2.1).omitted = false → ∀ st r st1, rec f.2.2 seen st = .ok (r, st1) →
+/-- what the loop needs of the recursive call, on the stores that satisfy `P` (an invariant of the run: `True`, or
+    "the entries of the type table are still there") -/
+def RecModels (P : Store → Prop) (nfs : Bool) (rec : IRec) (seen : List String)
+    (fields : List (String × String × GoType)) : Prop :=
+  ∀ f, f ∈ fields → (fieldJSONInfo f.1 f.2.1).omitted = false → ∀ st r st1, P st → rec f.2.2 seen st = .ok (r, st1) →
     ∃ fid, r = some fid ∧ Models nfs st1 f.2.2 false fid
 
-theorem structLoop_models {nfs : Bool} {rec : IRec} (hinv : IRecInv rec) {seen : List String} :
-    ∀ (fields : List (String × String × GoType)) {n : Node} {st : Store} {n' : Node} {st' : Store},
-      RecModels nfs rec seen fields → structLoop rec seen fields n st = .ok (n', st') →
+theorem structLoop_models {P : Store → Prop} (hP : ∀ st st', P st → Ext st st' → P st') {nfs : Bool} {rec : IRec}
+    (hinv : IRecInv rec) {seen : List String} :
+    ∀ (fields : List (String × String × GoType)) {n : Node} {st : Store} {n' : Node} {st' : Store}, P st →
+      RecModels P nfs rec seen fields → structLoop rec seen fields n st = .ok (n', st') →
       nodup (jsonNames fields) = true →
       (∀ k, k ∈ jsonNames fields → Json.lookup k (n.properties.getD []) = none) →
       ModelsFields nfs st' fields (n'.properties.getD []) ∧
       ∀ k t, Json.lookup k (n.properties.getD []) = some t → Json.lookup k (n'.properties.getD []) = some t
-  | [], n, st, n', st', _, h, _, _ => by
+  | [], n, st, n', st', _, _, h, _, _ => by
     simp only [structLoop] at h
     cases h
     exact ⟨by simp only [ModelsFields], fun _ _ h => h⟩
-  | (g, tag, ft) :: rest, n, st, n', st', hrec, h, hnd, hfree => by
-    have hrec' : RecModels nfs rec seen rest := fun f hf => hrec f (List.mem_cons_of_mem _ hf)
+  | (g, tag, ft) :: rest, n, st, n', st', hst, hrec, h, hnd, hfree => by
+    have hrec' : RecModels P nfs rec seen rest := fun f hf => hrec f (List.mem_cons_of_mem _ hf)
     rw [jsonNames_cons] at hnd hfree
     simp only [ModelsFields]
     rcases structLoop_cons h with ⟨ho, h⟩ | ⟨ho', st1, h1, _⟩ | ⟨ho, fid, st1, st2, h1, hst2, h⟩
     · simp only [ho, if_true] at hnd hfree
-      obtain ⟨hm, hk⟩ := structLoop_models hinv rest hrec' h hnd (by rw [ensureProps_getD]; exact hfree)
+      obtain ⟨hm, hk⟩ := structLoop_models hP hinv rest hst hrec' h hnd (by rw [ensureProps_getD]; exact hfree)
       rw [ensureProps_getD] at hk
       exact ⟨⟨Or.inl ho, hm⟩, hk⟩
-    · obtain ⟨fid, hfid, _⟩ := hrec _ List.mem_cons_self ho' _ _ _ h1
+    · obtain ⟨fid, hfid, _⟩ := hrec _ List.mem_cons_self ho' _ _ _ hst h1
       cases hfid
     · simp only [ho, Bool.false_eq_true, if_false, nodup, Bool.and_eq_true, Bool.not_eq_true'] at hnd hfree
-      obtain ⟨fid', hfid, hmod⟩ := hrec _ List.mem_cons_self ho _ _ _ h1
+      obtain ⟨fid', hfid, hmod⟩ := hrec _ List.mem_cons_self ho _ _ _ hst h1
       cases hfid
       have hnotin : (fieldJSONInfo g tag).name ∉ jsonNames rest := by
         have := hnd.1
@@ -208,7 +223,16 @@ theorem structLoop_models {nfs : Bool} {rec : IRec} (hinv : IRecInv rec) {seen :
         simp only [addField, Option.getD_some]
         rw [lookup_filter_append_ne hne, ensureProps_getD]
         exact hfree k (List.mem_cons_of_mem _ hk)
-      obtain ⟨hm, hk⟩ := structLoop_models hinv rest hrec' h hnd.2 hfree'
+      obtain ⟨he1, hid1, _⟩ := hinv _ _ _ _ _ h1
+      have hst2' : P st2 := by
+        rcases hst2 with rfl | ⟨d, rfl⟩
+        · exact hP _ _ hst he1
+        · refine hP _ _ hst ?_
+          unfold descSet
+          split
+          · exact he1.set! (hid1 fid rfl).1 _
+          · exact he1
+      obtain ⟨hm, hk⟩ := structLoop_models hP hinv rest hst2' hrec' h hnd.2 hfree'
       have hd12 : DExt st1 st2 := by
         rcases hst2 with rfl | ⟨d, rfl⟩
         · exact DExt.refl _
@@ -306,12 +330,13 @@ theorem inferStep_models (opts : IOpts) {rec : IRec} (hinv : IRecInv rec) (hrec 
     obtain ⟨⟨hnd, _⟩, hdf⟩ := hdomT
     obtain ⟨n, st1, hl, rfl, rfl⟩ := inferStep_struct_ok hs h
     refine ⟨_, rfl, ?_⟩
-    have hrm : RecModels opts.nullForSlices rec seen fields :=
-      fun f hf ho s r s1 hr => hrec _ _ _ _ _ (inDomainFields_mem hdf f hf ho) hr
+    have hrm : RecModels (fun _ => True) opts.nullForSlices rec seen fields :=
+      fun f hf ho s r s1 _ hr => hrec _ _ _ _ _ (inDomainFields_mem hdf f hf ho) hr
     have hndrop : NeverDrops rec seen fields := fun f hf ho s s1 hr => by
-      obtain ⟨fid, hfid, _⟩ := hrm f hf ho s _ s1 hr
+      obtain ⟨fid, hfid, _⟩ := hrm f hf ho s _ s1 trivial hr
       cases hfid
-    obtain ⟨hmf, _⟩ := structLoop_models hinv fields hrm hl hnd (fun _ _ => rfl)
+    obtain ⟨hmf, _⟩ := structLoop_models (P := fun _ => True) (fun _ _ _ _ => trivial) hinv fields trivial hrm hl hnd
+      (fun _ _ => rfl)
     obtain ⟨_, hrq, hkeys⟩ := structLoop_lists fields hndrop hl
     have hcore := node_of_core (structLoop_core fields hl)
     have hext : Ext ((st.push emptyNode).push (falseNode st.size)) (st1.push (addNull an (finalOrder n))) :=
